@@ -364,8 +364,11 @@ theorem PowerFits.online {s : State} (hf : PowerFits s) : OnlinePowerFits s := b
   unfold OnlinePowerFits onlineOracles
   omega
 
-theorem currentMembers_ok_online (s : State) (hf : OnlinePowerFits s) : ∃ cur, currentMembers s = .ok cur := by
+theorem currentMembers_ok_online (hskip : currentSetSkip = .nonPositive) (s : State) (hf : OnlinePowerFits s) :
+    ∃ cur, currentMembers s = .ok cur := by
   unfold currentMembers
+  have hkept : keptMember = fun m => decide (m.2 > 0) := by funext m; simp [keptMember, hskip]
+  rw [hkept]
   generalize hps : (((onlineOracles s).map (fun o => (o.ext, power s.p o))).filter (fun m => m.2 > 0)) = ps
   have hsum : (ps.map (·.2)).sum < u64 := by
     rw [← hps]
@@ -396,8 +399,9 @@ theorem currentMembers_ok_online (s : State) (hf : OnlinePowerFits s) : ∃ cur,
       rw [hmod]; simp; omega
     simp [hnz]
 
-theorem currentMembers_ok (s : State) (hf : PowerFits s) : ∃ cur, currentMembers s = .ok cur :=
-  currentMembers_ok_online s hf.online
+theorem currentMembers_ok (hskip : currentSetSkip = .nonPositive) (s : State) (hf : PowerFits s) :
+    ∃ cur, currentMembers s = .ok cur :=
+  currentMembers_ok_online hskip s hf.online
 
 /-! ## the whole crosschain end-blocker -/
 
@@ -481,6 +485,7 @@ theorem createOracleSetRequest_frame (s : State) (h : Nat) (s' : State) (he : cr
 power-difference step (which dereferences it), and the float is rendered with a FIXED number of decimals that
 `LegacyNewDecFromStr` accepts (≤ 18) -/
 def RefreshCodeOk : Prop :=
+  currentSetSkip = .nonPositive ∧
   needChecks = [.latestNil, .slashThisBlock, .powerDiff] ∧
   (match powerDiffFormat with | .fixed n => decide (n ≤ decPrecision) | _ => false) = true
 
@@ -488,7 +493,7 @@ instance : Decidable RefreshCodeOk := by unfold RefreshCodeOk; infer_instance
 
 /-- with a fixed format of at most 18 decimals every power difference parses -/
 theorem powerDiffParsed_isSome (hr : RefreshCodeOk) (delta : Nat) : ∃ v, powerDiffParsed delta = some v := by
-  obtain ⟨_, hf⟩ := hr
+  obtain ⟨_, _, hf⟩ := hr
   unfold powerDiffParsed
   cases hfmt : powerDiffFormat with
   | fixed n =>
@@ -503,7 +508,7 @@ theorem powerDiffParsed_isSome (hr : RefreshCodeOk) (delta : Nat) : ∃ v, power
 theorem needOracleSet_total (hr : RefreshCodeOk) (s : State) (h : Nat) (cur : List (Nat × Nat)) :
     ∃ b, needOracleSet s h cur = .ok b := by
   unfold needOracleSet
-  rw [hr.1]
+  rw [hr.2.1]
   simp only [needGo]
   cases hl : latestSet s with
   | none => exact ⟨true, rfl⟩
@@ -520,7 +525,7 @@ theorem needOracleSet_total (hr : RefreshCodeOk) (s : State) (h : Nat) (cur : Li
 
 theorem createOracleSetRequest_total_online (hr : RefreshCodeOk) (s : State) (h : Nat) (hf : OnlinePowerFits s) :
     ∃ s', createOracleSetRequest s h = .ok s' := by
-  obtain ⟨cur, hcur⟩ := currentMembers_ok_online s hf
+  obtain ⟨cur, hcur⟩ := currentMembers_ok_online hr.1 s hf
   obtain ⟨need, hneed⟩ := needOracleSet_total hr s h cur
   unfold createOracleSetRequest
   rw [hcur]
